@@ -114,7 +114,13 @@ def check(run):
     sc = prog.body(SH + "validated_shreds::ValidatedShreds::shred_count")
     if sc is not None:
         cs = sc.mentioned_fns()
-        o.check(any(x.endswith("::count") for x in cs) and any(x.endswith("::flatten") for x in cs), "ValidatedShreds::shred_count|counts-some", "shred_count() counts the Some entries", sc.span)
+        fam_cs = set(cs)
+        for fb in prog.family(sc.defpath):
+            fam_cs |= fb.mentioned_fns()
+        some_only = any(x.endswith("::flatten") for x in cs) or (any(x.endswith("::filter") for x in cs) and any(x.endswith("Option::is_some") for x in fam_cs)) \
+            or any(x.endswith("::filter_map") or x.endswith("::flat_map") for x in cs)
+        o.check(any(x.endswith("::count") for x in cs) and some_only and K.mentions_field(sc.operand_term(sc.calls()[0].args[0]), "shreds") if sc.calls() else False,
+                "ValidatedShreds::shred_count|counts-some", "shred_count() counts the Some entries of self.shreds (flatten / filter(is_some))", sc.span)
 
     # ------------------------------------------------------------------ O11.3
     o = run.ob("O11.3", "oversized payloads are refused before encoding; every shredder routes its payload through that check",
@@ -365,7 +371,24 @@ def ob_validated_set(run, oid):
         run.notes.append("O11.7: size condition outside the evaluator's vocabulary (%s): not decided" % e)
         o.ok("try_new|size-even-nonzero|not-decided", "size conditions not evaluable: not decided (no alarm)", sp, nontrivial=False)
     nones = [(nb, nsp, G.guard_atoms(b, nb, prog)) for (nb, rv, nsp, dst) in b.aggregates("core::option::Option", "None") if dst["l"] == 0]
-    uneq = [x for x in nones if any(a[0] == "eq" and a[2] is False and all(K.mentions_call(t, "len") for t in a[1]) for a in x[2])]
+    def closure_compares_lens(a):
+        # `present.any(|s| s.payload().data.len() != shred_size)`: a bool guard on an iterator predicate whose closure compares a length
+        if a[0] != "bool" or not isinstance(a[1][0], tuple):
+            return False
+        for x in mir.walk(a[1][0]):
+            if isinstance(x, tuple) and x and x[0] == "closure":
+                cb = prog.bodies.get(x[1])
+                if cb is not None and any(c.name.rsplit("::", 1)[-1] == "len" for c in cb.calls()):
+                    tt = None
+                    try:
+                        from engine import paths as _p
+                        tt = _p.bool_truth_table(cb, prog)
+                    except Exception:
+                        tt = None
+                    if tt is not None and any(isinstance(t, tuple) and t and t[0] == "eq" for t in tt[0]):
+                        return True
+        return False
+    uneq = [x for x in nones if any((a[0] == "eq" and a[2] is False and all(K.mentions_call(t, "len") for t in a[1])) or closure_compares_lens(a) for a in x[2])]
     o.check(bool(uneq), "try_new|sizes-equal", "a shred whose size differs from the common size => None", uneq[0][1] if uneq else b.span)
     # kind vs position: a disjunction, so no single edge dominates the None - look at the switches on is_data() / is_coding()
     # and require that a failing test leads straight to a None result
